@@ -356,6 +356,22 @@ def _eval_const(expr: str, env: dict):
     return result
 
 
+def _binop_c_expr(op_type: type, left: str, right: str) -> str:
+    """C++ text for a Python binary operation on already emitted operands.
+
+    ``/`` is true division and ``//`` / ``%`` round towards negative infinity in
+    Python (and accept floats); C++ truncates, so those go through helpers.
+    """
+
+    if op_type is ast.Div:
+        return f"(static_cast<float>({left}) / {right})"
+    if op_type is ast.FloorDiv:
+        return f"__redu_floordiv({left}, {right})"
+    if op_type is ast.Mod:
+        return f"__redu_mod({left}, {right})"
+    return f"({left} {_BIN[op_type]} {right})"
+
+
 def _to_c_expr(
     expr: str, env: dict, ctx: Optional[Dict[str, object]] = None
 ) -> str:
@@ -552,7 +568,7 @@ def _to_c_expr(
             )
 
         if isinstance(n, ast.BinOp) and type(n.op) in _BIN:
-            return f"({emit(n.left)} {_BIN[type(n.op)]} {emit(n.right)})"
+            return _binop_c_expr(type(n.op), emit(n.left), emit(n.right))
 
         if isinstance(n, ast.UnaryOp) and type(n.op) in _UN:
             op_token = _UN[type(n.op)]
@@ -1194,7 +1210,7 @@ def _infer_expr_type(
                 var_types[node.right.id] = "String"
                 right = "String"
             return "String"
-        if "float" in (left, right):
+        if "float" in (left, right) or isinstance(node.op, ast.Div):
             return "float"
         return "int"
 
@@ -1930,7 +1946,9 @@ def _handle_assignment_ast(
         )
         var_types[target.id] = inferred_type
         vars_env[target.id] = _ExprStr(target.id)
-        nodes.append(VarAssign(name=target.id, expr=f"({target.id} {op_symbol} {rhs_c})"))
+        nodes.append(
+            VarAssign(name=target.id, expr=_binop_c_expr(type(stmt.op), target.id, rhs_c))
+        )
         return nodes
 
     if isinstance(target, ast.Name):
